@@ -73,7 +73,9 @@ def gen_members(rng, long_chain=False):
         ms.append(("big/f4096.bin", "F", b"\xfe" * 4096))
     nl = rng.randint(0, 4)
     targets = ["dir", "dir/file.txt", "a.txt", "docs", "sub", "../a.txt", "/dir/sub", "/docs/readme", "nowhere", "l1", "l2", "l1/file.txt",
-               "l2/sub/deep.txt", "./dir/./sub", "dir/../docs", "../../etc/passwd", "/", "l3", ""]
+               "l2/sub/deep.txt", "./dir/./sub", "dir/../docs", "../../etc/passwd", "/", "l3", "",
+               # targets whose names are not ASCII, from links whose own names are
+               "caf\xe9/\xfc.txt", "caf\xe9", "/caf\xe9/\xfc.txt", "caf\xe9/\xfc.txt"]
     for i in range(nl):
         loc = rng.choice(["l1", "l2", "l3", "dir/l1", "docs/l2", "newdir/l1"])
         t = rng.choice(targets)
